@@ -234,15 +234,20 @@ package plush
 
 //@ typeinv (f *userFunction) = f.Block != nil && forall i int :: 0 <= i && i < len(f.Parameters) ==> f.Parameters[i] != nil
 
+// C16: the arguments are evaluated in the CALLER's scope (loop 1 runs with c.ctx == old(c.ctx)), then a
+// fresh child scope is created and each parameter is bound to the corresponding value (loop 2), then the
+// body runs in that scope; the caller's scope is restored on every exit.
 //@ func (c *compiler) evalUserFunction
 //@ ensures ufn: is(result, "*userFunction") ==> pay(result) != 0
 //@ requires node != nil
 //@ requires wfargs: forall i int :: 0 <= i && i < len(args) ==> (args[i] == nil || pay(args[i]) != 0)
 //@ requires cctx: cctx(c)
 //@ ensures restored: c.ctx == old(c.ctx) && (c.curStmt == nil || pay(c.curStmt) != 0)
+//@ ensures arity: len(args) < len(node.Parameters) ==> err != nil
 //@ errprop
 //@ assigns c.ctx, c.curStmt, mapsof("map[string]interface{}"), fresh
-//@ loop 1: invariant cctx(c) && octx == old(c.ctx)
+//@ loop 1: invariant callerscope: cctx(c) && c.ctx == old(c.ctx) && len(vals) == len(node.Parameters) && len(args) >= len(node.Parameters) && 0 <= ridx1
+//@ loop 2: invariant calleescope: cctx(c) && octx == old(c.ctx) && c.ctx != old(c.ctx) && len(vals) == len(node.Parameters) && 0 <= ridx2
 
 //@ func (c *compiler) evalIndexExpression
 //@ ensures ufn: is(result, "*userFunction") ==> pay(result) != 0
@@ -256,7 +261,17 @@ package plush
 //@ errprop
 //@ assigns mapsof("map[string]interface{}")
 
+// C11: one navigation step. "What Go navigation yields" is reflect's own semantics (rvIndex / rvMapIndex,
+// assumed contracts): the element at exactly that index / key, or an error - never another element.
+//@ pred seqkind(v any) = kindof(dyn(v)) == 23 || kindof(dyn(v)) == 17
 //@ func (c *compiler) evalAccessIndex
+//@ ensures elem: node.Callee == nil && seqkind(left) && is(index, "int") && 0 <= unbox(index, "int") && unbox(index, "int") < rvLen(rvOf(left)) ==> err == nil && result == rvIface(rvIndex(rvOf(left), unbox(index, "int")))
+//@ ensures range: seqkind(left) && is(index, "int") && !(0 <= unbox(index, "int") && unbox(index, "int") < rvLen(rvOf(left))) ==> err != nil
+//@ ensures intidx: seqkind(left) && !is(index, "int") ==> err != nil
+//@ ensures mapkey: kindof(dyn(left)) == 21 && (index == nil || !assignable(dyn(index), tkey(dyn(left)))) ==> err != nil
+//@ ensures mapmiss: kindof(dyn(left)) == 21 && index != nil && assignable(dyn(index), tkey(dyn(left))) && !rvValid(rvMapIndex(rvOf(left), rvOf(index))) ==> err == nil && result == nil
+//@ ensures maphit: node.Callee == nil && kindof(dyn(left)) == 21 && index != nil && assignable(dyn(index), tkey(dyn(left))) && rvValid(rvMapIndex(rvOf(left), rvOf(index))) ==> err == nil && result == rvIface(rvMapIndex(rvOf(left), rvOf(index)))
+//@ ensures other: !seqkind(left) && kindof(dyn(left)) != 21 ==> err != nil
 //@ ensures ufn: is(result, "*userFunction") ==> pay(result) != 0
 //@ requires node != nil
 //@ requires cctx: cctx(c)
@@ -275,7 +290,22 @@ package plush
 //@ errprop
 //@ assigns c.ctx, c.curStmt, mapsof("map[string]interface{}"), fresh
 
+// C11: member access. cv is the evaluated callee; rvd its value after one transparent pointer dereference;
+// fld the reflect field of that name (reflect's own semantics = what Go navigation yields).
+//@ spec rvd(cv any) reflect.Value = indirect(rvOf(cv))
 //@ func (c *compiler) evalIdentifier
+//@ ghost cv = callresult after evalExpression
+//@ ghost cverr = callresult1 after evalExpression
+//@ ensures nilcallee: node.Callee != nil && cverr == nil && cv == nil ==> result == nil
+//@ ensures notstruct: node.Callee != nil && cverr == nil && cv != nil && rvKind(rvd(cv)) != 25 ==> err != nil
+//@ ensures field: node.Callee != nil && cverr == nil && cv != nil && rvKind(rvd(cv)) == 25 && rvValid(rvField(rvd(cv), node.Value)) && rvKind(rvField(rvd(cv), node.Value)) != 22 && rvCanIface(rvField(rvd(cv), node.Value)) ==> err == nil && result == rvIface(rvField(rvd(cv), node.Value))
+//@ ensures unexported: node.Callee != nil && cverr == nil && cv != nil && rvKind(rvd(cv)) == 25 && rvValid(rvField(rvd(cv), node.Value)) && rvKind(rvField(rvd(cv), node.Value)) != 22 && !rvCanIface(rvField(rvd(cv), node.Value)) ==> err != nil
+//@ ensures nilptrfield: node.Callee != nil && cverr == nil && cv != nil && rvKind(rvd(cv)) == 25 && rvKind(rvField(rvd(cv), node.Value)) == 22 && rvIsNil(rvField(rvd(cv), node.Value)) ==> err == nil && result == nil
+//@ ensures ptrfield: node.Callee != nil && cverr == nil && cv != nil && rvKind(rvd(cv)) == 25 && rvKind(rvField(rvd(cv), node.Value)) == 22 && !rvIsNil(rvField(rvd(cv), node.Value)) && rvCanIface(rvField(rvd(cv), node.Value)) ==> err == nil && result == rvIface(rvElem(rvField(rvd(cv), node.Value)))
+//@ ensures nomember: node.Callee != nil && cverr == nil && cv != nil && rvKind(rvd(cv)) == 25 && !rvValid(rvField(rvd(cv), node.Value)) && !rvValid(rvMethod(rvd(cv), node.Value)) ==> err != nil
+//@ ensures method: node.Callee != nil && cverr == nil && cv != nil && rvKind(rvd(cv)) == 25 && !rvValid(rvField(rvd(cv), node.Value)) && rvValid(rvMethod(rvd(cv), node.Value)) ==> err == nil && result == rvIface(rvMethod(rvd(cv), node.Value))
+//@ ensures variable: node.Callee == nil && err == nil && node.Value != "nil" ==> result == hctx.ctxvalue(c.ctx, box(node.Value))
+//@ ensures unknown: node.Callee == nil && err != nil ==> is(err, "*ErrUnknownIdentifier")
 //@ ensures ufn: is(result, "*userFunction") ==> pay(result) != 0
 //@ requires node != nil
 //@ requires cctx: cctx(c)
@@ -309,11 +339,15 @@ package plush
 //@ requires node != nil
 //@ loop 1: invariant cctx(c) && c.ctx == old(c.ctx) && len(args) == ridx1 && ridx1 <= len(node.Arguments) && rt != 0 && kindof(rt) == 19 && rtNumIn == numIn(rt) && !isVariadic(rt) && len(node.Arguments) <= rtNumIn
 //@ loop 1: invariant argsok: forall j int :: 0 <= j && j < len(args) ==> rvValid(args[j]) && assignable(rvType(args[j]), inType(rt, j))
+// C12: each supplied argument is passed positionally, unchanged (nil becomes the parameter type's zero value)
+//@ loop 1: invariant unchanged: len(args) > 0 ==> (v__1 != nil ==> args[len(args)-1] == rvOf(v__1)) && (v__1 == nil ==> rvType(args[len(args)-1]) == inType(rt, len(args)-1))
 //@ loop 2: invariant cctx(c) && c.ctx == old(c.ctx) && len(args) == pos && 0 <= pos && pos <= rtNumIn-1 && rt != 0 && kindof(rt) == 19 && rtNumIn == numIn(rt) && isVariadic(rt) && nodeArgsLen == len(nodeArgs) && nodeArgsLen >= rtNumIn-1 && nodeArgs == node.Arguments
 //@ loop 2: invariant argsok: forall j int :: 0 <= j && j < len(args) ==> rvValid(args[j]) && assignable(rvType(args[j]), inType(rt, j))
-//@ loop 3: invariant cctx(c) && c.ctx == old(c.ctx) && len(args) == pos && rtNumIn-1 <= pos && pos <= nodeArgsLen && rt != 0 && kindof(rt) == 19 && rtNumIn == numIn(rt) && isVariadic(rt) && nodeArgsLen == len(nodeArgs) && nodeArgs == node.Arguments && expectedT == telem(inType(rt, rtNumIn-1))
+//@ loop 2: invariant unchanged: len(args) > 0 ==> (v__2 != nil ==> args[len(args)-1] == rvOf(v__2)) && (v__2 == nil ==> rvType(args[len(args)-1]) == inType(rt, len(args)-1))
+//@ loop 3: invariant unchanged: len(args) > rtNumIn-1 ==> (v__3 != nil ==> args[len(args)-1] == rvOf(v__3)) && (v__3 == nil ==> rvType(args[len(args)-1]) == expectedT__3)
+//@ loop 3: invariant cctx(c) && c.ctx == old(c.ctx) && len(args) == pos && rtNumIn-1 <= pos && pos <= nodeArgsLen && rt != 0 && kindof(rt) == 19 && rtNumIn == numIn(rt) && isVariadic(rt) && nodeArgsLen == len(nodeArgs) && nodeArgs == node.Arguments && expectedT__3 == telem(inType(rt, rtNumIn-1))
 //@ loop 3: invariant argsok: forall j int :: 0 <= j && j < len(args) && j < rtNumIn-1 ==> rvValid(args[j]) && assignable(rvType(args[j]), inType(rt, j))
-//@ loop 3: invariant varok: forall j int :: rtNumIn-1 <= j && j < len(args) ==> rvValid(args[j]) && assignable(rvType(args[j]), expectedT)
+//@ loop 3: invariant varok: forall j int :: rtNumIn-1 <= j && j < len(args) ==> rvValid(args[j]) && assignable(rvType(args[j]), expectedT__3)
 //@ loop 4: invariant cctx(c) && octx == unbox(old(c.ctx), "*Context")
 //@ requires cctx: cctx(c)
 //@ ensures restored: c.ctx == old(c.ctx) && (c.curStmt == nil || pay(c.curStmt) != 0)
@@ -325,6 +359,8 @@ package plush
 //@ loop 2: invariant cctx(c) && octx == unbox(old(c.ctx), "*Context") && 0 <= i && rvKind(riter) == 21 && rvCanIface(riter)
 //@ loop 2: invariant keysok: forall j int :: 0 <= j && j < len(keys) ==> rvValid(keys[j]) && rvCanIface(keys[j]) && rvType(keys[j]) == tkey(rvType(riter))
 //@ loop 3: invariant cctx(c) && octx == unbox(old(c.ctx), "*Context") && 0 <= i && (rvKind(riter) == 23 || rvKind(riter) == 17) && rvCanIface(riter)
+// C16 "the first return reached ends the function": no return object may be collected while the loop goes on
+//@ loop 3: invariant noret: len(ret) > 0 ==> !is(ret[len(ret)-1], "returnObject")
 //@ loop 4: invariant cctx(c) && octx == unbox(old(c.ctx), "*Context")
 //@ ensures ufn: is(result, "*userFunction") ==> pay(result) != 0
 //@ requires node != nil
